@@ -41,6 +41,7 @@ impl Rng {
 
 thread_local! {
     static LAST_PANIC: RefCell<Option<String>> = const { RefCell::new(None) };
+    static GUARD_DEPTH: RefCell<u32> = const { RefCell::new(0) };
 }
 
 pub fn install_panic_hook() {
@@ -62,6 +63,9 @@ pub fn install_panic_hook() {
             String::new()
         };
         let msg: String = msg.chars().take(120).collect();
+        if GUARD_DEPTH.with(|d| *d.borrow()) == 0 {
+            eprintln!("harness panic outside a guarded probe: {loc}: {msg}");
+        }
         LAST_PANIC.with(|p| *p.borrow_mut() = Some(format!("{loc}|{msg}")));
     }));
 }
@@ -69,7 +73,10 @@ pub fn install_panic_hook() {
 /// Runs `f`, turning a panic into `Err(site)`.
 pub fn guarded<T>(f: impl FnOnce() -> T) -> Result<T, String> {
     LAST_PANIC.with(|p| *p.borrow_mut() = None);
-    match catch_unwind(AssertUnwindSafe(f)) {
+    GUARD_DEPTH.with(|d| *d.borrow_mut() += 1);
+    let r = catch_unwind(AssertUnwindSafe(f));
+    GUARD_DEPTH.with(|d| *d.borrow_mut() -= 1);
+    match r {
         Ok(x) => Ok(x),
         Err(_) => Err(LAST_PANIC
             .with(|p| p.borrow_mut().take())
